@@ -158,6 +158,44 @@ pub fn run(_a: &HashMap<String, String>) -> (usize, usize) {
         }
         report(format!("{} then drop", op), v);
     }
+    // a blocking wait interrupted by a signal handler (EINTR) must not turn into a status
+    {
+        let mut v = vec![];
+        extern "C" fn on_usr2(_s: libc::c_int) {}
+        unsafe {
+            let mut sa: libc::sigaction = std::mem::zeroed();
+            sa.sa_sigaction = on_usr2 as extern "C" fn(libc::c_int) as usize;
+            sa.sa_flags = 0;
+            libc::sigemptyset(&mut sa.sa_mask);
+            libc::sigaction(libc::SIGUSR2, &sa, std::ptr::null_mut());
+        }
+        let t0 = Instant::now();
+        let mut p = child("sleep:1500");
+        let me = unsafe { libc::pthread_self() } as usize;
+        let poker = std::thread::spawn(move || {
+            std::thread::sleep(Duration::from_millis(300));
+            unsafe { libc::pthread_kill(me as libc::pthread_t, libc::SIGUSR2) };
+        });
+        let first = p.wait();
+        let _ = poker.join();
+        if let Ok(st) = first {
+            if t0.elapsed() < Duration::from_millis(1200) {
+                v.push(format!("C09/no-status-while-child-runs: wait() interrupted by a signal reported {:?} after {:?} while the child was still running", st, t0.elapsed()));
+            }
+        }
+        let fin = p.wait();
+        if !matches!(fin, Ok(ExitStatus::Exited(0))) {
+            v.push(format!("C09/reported-status-is-truth: after an interrupted wait the final status is {:?}, not Exited(0)", fin));
+        }
+        unsafe { libc::signal(libc::SIGUSR2, libc::SIG_DFL) };
+        loop {
+            let mut st = 0;
+            if unsafe { libc::waitpid(-1, &mut st, 0) } <= 0 {
+                break;
+            }
+        }
+        report("interrupted wait".to_string(), v);
+    }
     // signals reach exactly the child's pid, not its process group
     {
         let mut v = vec![];
